@@ -375,20 +375,25 @@ fn pinwheel_case<K: Kern<2>>(cx: &mut Ctx, r: &mut Rng, rotate: bool) {
     op_locate_batch(&mut cx.tr, 0, &dt, &qs, &hints);
 }
 
-/// A long thin strip (two rows of 13 points): walks from a hint at one end to a query at the other take more steps
-/// than any other corpus mesh (> 20 cells in a row), which is what a step budget that depends on the mesh size, or a
+/// A long thin strip (two rows of 20 points): walks from a hint at one end to a query at the other take more steps
+/// than any other corpus mesh (38 cells in a row), which is what a step budget that depends on the mesh size, or a
 /// scan that trusts the walk's visited set, needs in order to matter.
 fn strip_locate_case<K: Kern<2>>(cx: &mut Ctx, r: &mut Rng, idx: usize) {
     cx.start_case(format!("C10 strip D=2 k={} i={idx}", K::NAME));
     let mut pts: Vec<Vec<i64>> = Vec::new();
-    for i in 0..13i64 {
+    for i in 0..20i64 {
         pts.push(vec![3 * i, (i * (idx as i64 + 1)) % 2]);
         pts.push(vec![3 * i + 1, 3 + ((i + idx as i64) % 2)]);
     }
     let input = cx.inputs(&pts, false);
     let Some(dt) = op_construct::<K, 2>(&mut cx.tr, 0, Ctor::WithGuarantee, GUARANTEES[1], Opts::default_like(), &input) else { return };
     let cur_pts: Vec<Vec<i64>> = dt.vertices().map(|(_, v)| cx.tr.coord_proj(v.point().coords()).0).collect();
-    let qs = query_points(r, &cur_pts, 40);
+    let mut qs = query_points(r, &cur_pts, 16);
+    // points strictly between the two rows: strictly inside a cell or on an interior edge, all along the strip
+    for i in 0..19i64 {
+        qs.push(vec![3 * i + 1 + (i + idx as i64) % 2, 2]);
+        qs.push(vec![3 * i + 2, 2]);
+    }
     let mut hints: Vec<Hint> = vec![Hint::None];
     for ck in dt.tds().cell_keys() {
         hints.push(Hint::Cell(ck));
